@@ -30,6 +30,13 @@ func (partyIDs IDSlice) Contains(ids ...ID) bool {
 // Valid returns true if the IDSlice is sorted and does not contain any duplicates.
 func (partyIDs IDSlice) Valid() bool {
 	n := len(partyIDs)
+	// the empty ID is not a party: it is the address of a broadcast, and its scalar is 0, the
+	// point at which a sharing polynomial evaluates to the secret itself
+	for _, id := range partyIDs {
+		if id == "" {
+			return false
+		}
+	}
 	for i := 1; i < n; i++ {
 		if partyIDs[i-1] >= partyIDs[i] {
 			return false
